@@ -969,6 +969,8 @@ def run(case):
     else:                                                # numpy arrays in another memory layout
       lay = LAYOUTS[(gi + n) % len(LAYOUTS)]
       batches = [{k: _relayout(v, lay) for k, v in b.items()} for b in batches]
+      if (gi + n) % 5 == 1:      # domain ids in a narrow integer dtype (one geometry in five: every dtype change recompiles)
+        batches = [{**b, 'domain_id': b['domain_id'].astype(np.uint8)} for b in batches]
       view = None
       if gi % 2 == 1:
         params = {'w': _relayout(params['w'], 'neg' if lay == 'C' else 'step2'), 'b': params['b']}
